@@ -431,6 +431,24 @@ F1dAllowed(shape, vals, vecs, axes0) ==          \* axes0: <<NONE>> for None, el
       ELSE {Ok(VL([t \in 1..Len(vals) |->
                      VI(vals[t] * ProdOver(t - 1, shape, vecs, [u \in 1..Len(axn) |-> axn[u] + 1], 1))]))}
 
+(* =========================== signature_string ========================== *)
+(* posargs "always included", joined by pos_sep; optargs: "Only those      *)
+(* parameters that are different from the given default are included as    *)
+(* name=value keyword pairs", joined by opt_sep; part_sep joins the two    *)
+(* joined strings; "A provided single string is used for all joining       *)
+(* operations"; empty parts are omitted (Examples).  Arguments are given   *)
+(* by their repr (default mod '!r'): integers, strings, None.              *)
+RECURSIVE JoinStr(_, _)
+JoinStr(ss, sep) == IF ss = <<>> THEN "" ELSE IF Len(ss) = 1 THEN ss[1] ELSE ss[1] \o sep \o JoinStr(Tail(ss), sep)
+SigStrRef(pos, opt, sep) ==
+  LET ps == sep[1]
+      os == IF Len(sep) = 1 THEN sep[1] ELSE sep[2]
+      qs == IF Len(sep) = 1 THEN sep[1] ELSE sep[3]
+      shown == SelectSeq(opt, LAMBDA o : o[2] # o[3])
+      ostr  == [i \in 1..Len(shown) |-> shown[i][1] \o "=" \o shown[i][2]]
+      parts == (IF pos # <<>> THEN <<JoinStr(pos, ps)>> ELSE <<>>) \o (IF shown # <<>> THEN <<JoinStr(ostr, os)>> ELSE <<>>)
+  IN  JoinStr(parts, qs)
+
 (* ============== the branch of the documentation that applies =========== *)
 (* family name of a case: used in verdict signatures only                  *)
 IdxCell(ind, shape, i2s) ==
@@ -503,6 +521,10 @@ Allowed(fn, a) ==
                                  r \in ArrayStr2Set(a.rows, a.nprint)}
     [] fn = "aob"   -> AobAllowed(a.shape, a.vals, a.funcs, a.which, a.order, a.once)
     [] fn = "f1d"   -> F1dAllowed(a.shape, a.vals, a.vecs, a.axes)
+    \* is_string: "Return True if obj behaves like a string, False else"
+    [] fn = "isstr" -> IF a.x.k = "str" THEN {Ok(VB(1))}
+                       ELSE IF a.x.k \in {"none", "bool", "int", "float", "list", "ell"} THEN {Ok(VB(0))} ELSE ANY
+    [] fn = "sigstr" -> IF Len(a.sep) \in {1, 3} THEN {Ok(VTx(SigStrRef(a.pos, a.opt, a.sep)))} ELSE {Err("*")}
 MatchesCase(fn, a, obs) ==
   CASE fn = "index"  -> MatchesIndex(obs, Allowed(fn, a), a.shape)
     [] fn = "unique" -> MatchesUnique(obs, Allowed(fn, a))
